@@ -12,6 +12,8 @@ import RsslVerif.Gen.TemplateConst
 import RsslVerif.Lemmas.FixpointTemplate
 import RsslVerif.Gen.NameReserve
 import RsslVerif.Lemmas.FixpointGenNames
+import RsslVerif.Gen.ProtoParams
+import RsslVerif.Lemmas.FixpointProto
 /-!
 # C04 — emitted DirectX HLSL is accepted by the front end and is a fixpoint
 
@@ -1062,5 +1064,97 @@ theorem late_set_loses_generated_type_names :
   Lemmas.FixpointGenNames.late_set_loses_generated_type_names
 
 end GeneratedNames
+
+section Prototypes
+open RsslVerif.Model.FixpointProto
+
+/-- **proto_params_as_modelled** (obligation, re-extracted on every run by `Gen.ProtoParams`): the exporter prints EVERY
+declaration of a function — prototype (`only_declare = true`) or definition — from the `FunctionImplementation` (`decl`):
+attributes, parameters (with `param.default_expr`) and body; `only_declare` decides the body only; without an implementation
+it fails with `FunctionNotDefined`.  The typer registers the signature (`non_default_params` = number of parameters without a
+default) at the first declaration, a later declaration takes the id of the pre-declaration and its own signature is used for
+the look-up only; the parameter list with the default expressions is stored by `parse_function_body`, i.e. for the definition. -/
+theorem proto_params_as_modelled :
+    RsslVerif.Gen.ProtoParams.exporterDecl =
+      ["let decl = match context .module .function_registry .get_function_implementation(id)",
+       "Some(decl) => decl, None => return Err(GenerateError::FunctionNotDefined),",
+       "for attribute in &decl.attributes", "for param in &decl.params", "for statement in &decl.scope_block.0"] ∧
+    RsslVerif.Gen.ProtoParams.exporterOnlyDeclare = ["let body = if only_declare"] ∧
+    RsslVerif.Gen.ProtoParams.exporterRootArms =
+      ["ir::RootDefinition::Enum(id) => module.enum_registry.get_enum_definition(*id).namespace, ir::RootDefinition::ConstantBuffer(id) => module.cbuffer_registry[id.0 as usize].namespace, ir::RootDefinition::GlobalVariable(id) => module.global_registry[id.0 as usize].namespace, ir::RootDefinition::FunctionDeclaration(id) | ir::RootDefinition::Function(id) =>",
+       "ir::RootDefinition::FunctionDeclaration(id) => generate_function(*id, true, context)? .into_iter() .map(ast::RootDefinition::Function) .collect::<Vec<_>>(), ir::RootDefinition::Function(id) => generate_function(*id, false, context)? .into_iter() .map(ast::RootDefinition::Function) .collect::<Vec<_>>(),"] ∧
+    RsslVerif.Gen.ProtoParams.exporterDefault =
+      ["let default_expr = if let Some(default_expr) = &param.default_expr",
+       "Some(generate_expression(default_expr, context)?)", "param_type, declarator, location_annotations, default_expr,"] ∧
+    RsslVerif.Gen.ProtoParams.typerPredeclaration =
+      ["let id = match context.check_existing_functions(&fd.name, &signature, is_definition)?", "Some(id) =>", "id",
+       "let id = context.register_function(fd.name.clone(), signature.clone(), scope, fd.clone())?",
+       "context.add_function_to_current_scope(id)?", "id", "parse_function_body(fd, id, signature, context)?",
+       "context.module.function_registry.set_implementation(id, def)", "Ok((id, !is_definition))"] ∧
+    RsslVerif.Gen.ProtoParams.typerSignature =
+      ["let (signature, scope) = parse_function_signature(fd, None, context)?",
+       "let id = match context.check_existing_functions(&fd.name, &signature, is_definition)?",
+       "let id = context.register_function(fd.name.clone(), signature.clone(), scope, fd.clone())?",
+       "if signature.template_params.is_empty()", "parse_function_body(fd, id, signature, context)?"] ∧
+    RsslVerif.Gen.ProtoParams.typerNonDefault =
+      ["let mut non_default_params = 0", "if non_default_params != vec.len()", "non_default_params += 1",
+       "return_type, template_params, param_types, non_default_params,"] ∧
+    RsslVerif.Gen.ProtoParams.typerImplDefault =
+      [", interpolation_modifier: parsed_param.interpolation_modifier, precise: parsed_param.precise, semantic: parsed_param.semantic, default_expr: parsed_param.default_expr,"] :=
+  ⟨rfl, rfl, rfl, rfl, rfl, rfl, rfl, rfl⟩
+
+/-- **emitted_declarations_fixpoint**: for every list of declarations of one function (any number of prototypes in front
+of, between and after the definition, any default expressions on any of them) that the exporter prints, the printed list is
+printed as itself again, every printed declaration carries the parameter list of the definition, and the signature the second
+compilation registers is that of the definition. -/
+theorem emitted_declarations_fixpoint (ds ds' : List FDecl) (ps : List (Option String)) (hp : implParams ds = some ps)
+    (h : exportDecls ds = some ds') :
+    exportDecls ds' = some ds' ∧ (∀ d' ∈ ds', d'.defaults = ps) ∧ sigNonDefault ds' = some (nonDefault ps) :=
+  ⟨Lemmas.FixpointProto.export_idempotent h, Lemmas.FixpointProto.export_carries_def hp h,
+   Lemmas.FixpointProto.sig_export hp h⟩
+
+/-- **emitted_calls_accepted_again**: if the definition has at least as many default arguments as the first declaration
+(`nonDefault ps ≤ k`), every call the first compilation admits (enough arguments for the first declaration's signature) is
+admitted by the compilation of the emitted text — in particular for a function without a prototype, with defaults on both
+sides, or on the definition only. -/
+theorem emitted_calls_accepted_again (ds ds' : List FDecl) (ps : List (Option String)) (k n : Nat)
+    (hp : implParams ds = some ps) (h : exportDecls ds = some ds') (hk : sigNonDefault ds = some k)
+    (hge : nonDefault ps ≤ k) (hc : CallOk ds n) : CallOk ds' n := by
+  obtain ⟨k', hk', hle⟩ := hc
+  rw [hk] at hk'
+  cases hk'
+  exact ⟨nonDefault ps, Lemmas.FixpointProto.sig_export hp h, Nat.le_trans hge hle⟩
+
+/-- the converse direction: the second compilation admits a call exactly when it has enough arguments for the DEFINITION -/
+theorem emitted_call_iff (ds ds' : List FDecl) (ps : List (Option String)) (n : Nat)
+    (hp : implParams ds = some ps) (h : exportDecls ds = some ds') : CallOk ds' n ↔ nonDefault ps ≤ n := by
+  constructor
+  · intro ⟨k, hk, hle⟩
+    rw [Lemmas.FixpointProto.sig_export hp h] at hk
+    cases hk
+    exact hle
+  · intro hle
+    exact ⟨_, Lemmas.FixpointProto.sig_export hp h, hle⟩
+
+/-- non-vacuity: prototype, forward use, definition, repeated prototype — defaults on both sides with different expressions -/
+example :
+    let ds : List FDecl := [⟨false, [none, some "2.0f"]⟩, ⟨true, [none, some "3.0f"]⟩, ⟨false, [none, some "2.0f"]⟩]
+    exportDecls ds = some [⟨false, [none, some "3.0f"]⟩, ⟨true, [none, some "3.0f"]⟩, ⟨false, [none, some "3.0f"]⟩] ∧
+    CallOk ds 1 ∧ sigNonDefault ds = some 1 ∧ implParams ds = some [none, some "3.0f"] := by decide
+
+/-- **prototype_default_dropped_witness** (negation witness on the CURRENT code = known finding
+`decl-forms:.. / prototype-default-dropped`): `float g(float a, float b = 2.0f); float g(float a, float b) {..}` — the call
+`g(1.0f)` is admitted by the first compilation and refused by the compilation of the emitted text, whose prototype reads
+`float g(float a, float b);`.  So `nonDefault ps ≤ k` can not be dropped from `emitted_calls_accepted_again`.  The second
+conjunct is the sibling: with the default on the definition only the emitted PROTOTYPE carries `K`, an expression of the
+definition (refused when `K` is declared between the two: known finding `.. / definition-default-printed-on-earlier-prototype`). -/
+theorem prototype_default_dropped_witness :
+    (let ds : List FDecl := [⟨false, [none, some "2.0f"]⟩, ⟨true, [none, none]⟩]
+     CallOk ds 1 ∧ ∃ ds', exportDecls ds = some ds' ∧ ds' = [⟨false, [none, none]⟩, ⟨true, [none, none]⟩] ∧ ¬ CallOk ds' 1) ∧
+    (let ds : List FDecl := [⟨false, [none, none]⟩, ⟨true, [none, some "K"]⟩]
+     exportDecls ds = some [⟨false, [none, some "K"]⟩, ⟨true, [none, some "K"]⟩]) := by
+  refine ⟨⟨by decide, _, rfl, rfl, by decide⟩, by decide⟩
+
+end Prototypes
 
 end RsslVerif.Thm.C04
